@@ -347,8 +347,8 @@ const fn convert_u32_to_p32bits(a: u32) -> u32 {
 const fn convert_u64_to_p32bits(a: u64) -> u32 {
     let mut mask = 0x8000_0000_0000_0000_u64;
     // NaR
-    if a > 0xFFFB_FFFF_FFFF_FBFF {
-        // 18445618173802707967
+    if a > 0xFFFB_FFFF_FFFF_FFFF {
+        // 18445618173802708991
         0x7FFF_C000 // 18446744073709552000
     } else if a < 0x2 {
         (a << 30) as u32
